@@ -39,7 +39,28 @@ def withDiscriminants (p : Program) : Program :=
       Def.enum doc a c u n none (es.zipIdx.map fun (e, i) => { e with value := if i % 3 == 1 then none else some ⟨false, 10, 3 + 5 * i, false⟩ })
     | d => d }
 
+/-- alias chains that run through several modules with RELATIVE names, next to decoy modules in which the same relative name means
+    another type: `P::A0 { typealias T = A1::T; struct U { x: T, y: Sequence<T> } }`, `P::A1 { typealias T = A2::T }`, …, the last one an
+    anonymous type; decoys `P::A<i>::A<k>` (`typealias T = Dictionary<int32, string>`) for every k the alias of `A<i>` does not name -/
+def aliasModulePrograms : List Program :=
+  let r (ty : TyExpr) (opt : Bool := false) : TRef := .mk [] ty opt
+  let fileIn := fun (m : String) (defs : List Def) => ({ fileAttrs := [], module := some ⟨[], m⟩, defs := defs } : SFile)
+  [2, 3, 4].flatMap fun n =>
+    let main := (List.range n).map fun i =>
+      let target : TRef := if i + 1 < n then r (.named ("A" ++ toString (i + 1) ++ "::T")) else r (.seq (r (.result (r (.prim .bool)) (r (.prim .string)))))
+      fileIn ("P::A" ++ toString i)
+        ([Def.alias [] [] "T" target] ++
+         (if i == 0 then [Def.struct [] [] false "U" [⟨[], [], none, "x", r (.named "T")⟩, ⟨[], [], none, "y", r (.seq (r (.named "T") true))⟩],
+                          Def.iface [] [] "I" [] [{ doc := [], attrs := [], idempotent := false, name := "op", params := [⟨[], none, "p", false, r (.named "T")⟩],
+                                                    ret := .single none false (r (.dict (r (.prim .int32)) (r (.named "T")))) }]] else []))
+    let decoys := (List.range n).flatMap fun i => (List.range n).filterMap fun k =>
+      if k == i || k == i + 1 then none
+      else some (fileIn ("P::A" ++ toString i ++ "::A" ++ toString k) [Def.alias [] [] "T" (r (.dict (r (.prim .int32)) (r (.prim .string))))])
+    [main ++ decoys, decoys ++ main.reverse]
+
 def genC20 (tier : Tier) (seed : Nat) (o : Out) : IO Unit := do
+  for p in aliasModulePrograms do
+    o.line (compileCase "alias-modules" "c20:events" "-" (p.map printFile) (visitDump p))
   let nProg := if tier == .thorough then 20000 else 1500
   let mut r := Rng.mk' (seed + 20)
   for i in [0:nProg] do
